@@ -18,7 +18,7 @@ META = {"engine": "A floscript (build only)", "technique": "fuzzing with an outc
         "level_text": "Each input is really built; the outcome must be success, False, ParseError, ResolveError or a ValueError of the literal "
                       "converters (or an explicit script-attributable `raise ValueError(\"...\")`); any other exception type is an internal "
                       "error keyed by (type, innermost ioflo function, source line); a build exceeding the budget twice is non-termination.",
-        "level_note": "Wall-clock is used only as a termination watchdog: one trip is inconclusive, a confirmed second trip (4x budget, same "
+        "level_note": "CPU time of the worker process (not wall-clock, so load cannot trip it) is used only as a termination watchdog: one trip is inconclusive, a confirmed second trip (4x budget, same "
                       "innermost function) is the witness."}
 
 VERBS = ['load', 'house', 'init', 'server', 'logger', 'log', 'loggee', 'framer', 'first', 'frame', 'over', 'under', 'next', 'done',
@@ -46,16 +46,21 @@ def outcome_of(text, budget):
     """returns (cls, key, detail)"""
     from vf.flo import dump
     from ioflo.base import excepting
-    signal.signal(signal.SIGALRM, alarm)
-    signal.setitimer(signal.ITIMER_REAL, budget)
+    # budget in CPU seconds of this process (ITIMER_PROF): a build that does not terminate burns CPU and trips it, a worker
+    # that is starved or swapped out on a loaded machine does not (observed: 1 s + 8 s of wall-clock tripped on millisecond
+    # builds while memory-hungry jobs ran beside the check); the wall-clock backstop is the worker's shard timeout
+    signal.signal(signal.SIGPROF, alarm)
+    signal.setitimer(signal.ITIMER_PROF, budget)
     try:
         try:
             o, det, houses = dump.build_text(text)
         finally:
-            signal.setitimer(signal.ITIMER_REAL, 0)
+            signal.setitimer(signal.ITIMER_PROF, 0)
     except Trip as e:
         fr = [f for f in traceback.extract_tb(e.__traceback__) if (os.sep + "ioflo" + os.sep) in f.filename]
-        where = "%s:%s" % (os.path.basename(fr[-1].filename), fr[-1].name) if fr else "?"
+        allfr = traceback.extract_tb(e.__traceback__)
+        where = "%s:%s" % (os.path.basename(fr[-1].filename), fr[-1].name) if fr else (
+            "outside-ioflo@%s:%s" % (os.path.basename(allfr[-1].filename), allfr[-1].name) if allfr else "?")
         return "timeout", "non-termination@" + where, where
     if o in ("built", "failed", "parse-error", "resolve-error"):
         return o, None, None
@@ -175,7 +180,7 @@ def refgraph_script(frames, order, unders=None, nexts=None, first=None, clones=N
             L.append("      under %s" % unders[i])
         if nexts and nexts.get(i):
             L.append("      next %s" % nexts[i])
-        L.append("      go next if elapsed >= 1.0")
+        L.append("      print f%d" % i)        # (a `go next` here would make every script fail on its last frame, whatever the graph)
     for mname, targets in (clones or {}).items():
         L.append("  framer %s be moot" % mname)
         L.append("    frame x0")
@@ -227,7 +232,7 @@ def worker(ctx, job):
             cls2, key2, det2 = outcome_of(text, gbudget * 8)
             if cls2 == "timeout":
                 confirmed[key] = confirmed.get(key, 0) + 1
-                ctx.fail(key, "building does not terminate (watchdog tripped twice, %gs and %gs) in %s" % (
+                ctx.fail(key, "building does not terminate (watchdog tripped twice, %gs and %gs of cpu time) in %s" % (
                     gbudget, gbudget * 8, detail), {"script": text, "where": detail})
                 continue
             cls, key, detail = cls2, key2, det2
@@ -258,7 +263,7 @@ def worker(ctx, job):
         if cls == "timeout":
             cls2, key2, det2 = outcome_of(text, budget * 4)
             if cls2 == "timeout" and key2 == key:
-                ctx.fail(key, "building does not terminate (watchdog tripped twice, %gs and %gs) in %s" % (budget, budget * 4, detail),
+                ctx.fail(key, "building does not terminate (watchdog tripped twice, %gs and %gs of cpu time) in %s" % (budget, budget * 4, detail),
                          {"script": text, "where": detail})
             elif cls2 == "timeout":
                 ctx.inconclusive_case("watchdog tripped twice at different places (%s, %s)" % (key, key2))
